@@ -122,6 +122,21 @@ class Ctx:
             self.transitions += gen
         return res
 
+    def model_simulate(self, module, cfg_text, num=20000, depth=100, workers=8, timeout=3000):
+        """Random simulation (tlc -simulate) of an instance too large to enumerate: `num` behaviours per worker
+        of at most `depth` steps, every invariant evaluated in every state. Returns dict(ok, out, checked, traces)."""
+        wd = tempfile.mkdtemp(prefix="sim-", dir=self.scratch)
+        rc, out, wall = tlc._run_tlc(module, cfg_text, wd, workers, timeout=timeout, heap="8g",
+                                     extra_args=["-simulate", "num=%d" % num, "-depth", str(depth), "-seed", str(self.seed)])
+        shutil.rmtree(wd, ignore_errors=True)
+        m = re.findall(r"Progress: (\d+) states checked, (\d+) traces generated", out)
+        checked, traces = (int(m[-1][0]), int(m[-1][1])) if m else (0, 0)
+        self.tlc_runs.append(dict(module=module, mode="simulate", rc=rc, generated=checked, traces=traces, wall=round(wall, 1)))
+        if rc == 124:
+            raise Machinery("TLC simulation timeout on %s" % module)
+        self.transitions += checked
+        return dict(rc=rc, out=out, ok=(rc == 0), checked=checked, traces=traces, module=module)
+
     def validate_batch(self, trace_path, summary, atomic=True, exact=True, timeout=600, max_rejections=4, validator=None):
         """Validates a batch file of traces against AbsTxn, continuing past rejected traces.
         Returns (accepted_count, rejections) with rejections = list of dict(index, line, event)."""
